@@ -342,23 +342,26 @@ func TestVerif_C04(t *testing.T) {
 	}
 	var distinct int64
 	// per-node state catalogues
-	var nodeStates []l2Node
-	eps := []int{0, 1, 4}
-	sels := []int{0, 1}
-	if thorough {
-		eps = []int{0, 1, 2, 3, 4, 5}
-		sels = []int{0, 1, 2, 3}
-	}
-	for _, alive := range []bool{true, false} {
-		for _, known := range []bool{true, false} {
-			for _, cond := range []int{0, 1, 2} {
-				for _, sel := range sels {
-					for _, ep := range eps {
-						nodeStates = append(nodeStates, l2Node{alive, known, cond, sel, ep})
+	mkStates := func(sels, eps []int) []l2Node {
+		var out []l2Node
+		for _, alive := range []bool{true, false} {
+			for _, known := range []bool{true, false} {
+				for _, cond := range []int{0, 1, 2} {
+					for _, sel := range sels {
+						for _, ep := range eps {
+							out = append(out, l2Node{alive, known, cond, sel, ep})
+						}
 					}
 				}
 			}
 		}
+		return out
+	}
+	// quick: 3 nodes over the small per-node catalogue. thorough: 3 nodes over a medium catalogue plus
+	// 2 nodes over the full one (every endpoint condition, every advertisement selection).
+	nodeStates := mkStates([]int{0, 1}, []int{0, 1, 4})
+	if thorough {
+		nodeStates = mkStates([]int{0, 1, 2}, []int{0, 1, 3, 4})
 	}
 	res.Info["node_states"] = len(nodeStates)
 	N := 3
@@ -399,6 +402,12 @@ func TestVerif_C04(t *testing.T) {
 		}
 	}
 	rec(nil)
+	if thorough {
+		nodeStates = mkStates([]int{0, 1, 2, 3}, []int{0, 1, 2, 3, 4, 5})
+		res.Info["node_states_full_2_nodes"] = len(nodeStates)
+		N = 2
+		rec(nil)
+	}
 	// map-iteration orders of the candidate lists: all nodes eligible, every order vector with <= 2 deviations
 	for n := 2; n <= 5; n++ {
 		if !verifrt.Mine(n) {
